@@ -7,6 +7,4 @@ CONSTANTS
   MaxArgs = {}
   Bug = "none"
   RECORD = TRUE
-INVARIANTS Prefix NoError Conservation BufIsFramePrefix ScratchCase AcctOK QuietEqual NotAccepted
-CONSTRAINT Track
-POSTCONDITION Report
+INVARIANTS Prefix NoError Conservation BufIsFramePrefix ScratchCase AcctOK QuietEqual
